@@ -43,9 +43,19 @@ def compare(ctx: Ctx, sessions, cases):
     k = 0
     for s, case in zip(sessions, cases):
         broke = False
+        prev_exp = None
         for line, exp in zip(s.lines, s.expect):
             out = outs[k]
             k += 1
+            raw_exp, prev_exp = prev_exp, exp
+            if "wf_of_raw" in exp:
+                # the Lean well-formedness verdict on a raw snapshot of the real file does not depend on the model state:
+                # it is kept even after model and implementation have parted ways
+                ctx.count("raw_files_judged_by_lean_wfCheck")
+                exp["wf_result"] = out
+                if raw_exp is not None and "raw" in raw_exp:
+                    raw_exp["wf_result"] = out
+                continue
             if broke:
                 continue
             ctx.traces += 1
@@ -79,9 +89,6 @@ def compare(ctx: Ctx, sessions, cases):
                             what = f"node {u}: model {mn.get(u)} file {rn.get(u)}"
                             break
                     ctx.disagree(case, "Ws fileOf vs raw file structure: " + what)
-            elif "wf_of_raw" in exp:
-                ctx.count("raw_files_judged_by_lean_wfCheck")
-                exp["wf_result"] = out
     return outs
 
 
